@@ -409,10 +409,13 @@ def _r_ext(o: Any) -> dict[str, Any]:
     out = {"dtc": xi(o.dtc_and_status_record[0]), "status": xi(o.dtc_and_status_record[1]),
            "has_rec": len(recs) > 0, "recnum": 0, "data": []}
     if recs:
-        if len(recs) > 1:
-            raise Machinery("binding: parsed ReportDTCExtDataRecordByDTCNumberResponse with several records")
         out["recnum"] = xi(recs[0][0])
         out["data"] = xb(recs[0][1])
+        # gallia decodes everything behind the first record number as ONE record; an object exposing several
+        # records is laid out the way they would stand on the wire (number, data, number, data ...) so that the
+        # contract compares it with the bytes received
+        for num, data in recs[1:]:
+            out["data"] = out["data"] + [xi(num)] + xb(data)
     return out
 
 
